@@ -223,6 +223,11 @@ def run(rep, tier):
     for lang in ("dart", "kotlin"):
         sel = [(i, c) for i, c in enumerate(cases) if not (lang == "kotlin" and abisig.uses_nonptr_option(c["sig"]))]
         d = dict(defs)
+        shapes = dict(defs["shapes"])
+        if lang == "dart":
+            # structs outside the shared catalogue: optional slices and strings as fields (Kotlin has no options)
+            d["structs"] = dict(defs["structs"], **defs["xstructs"])
+            shapes.update(defs["xshapes"])
         if lang == "kotlin":
             d = {"structs": {k: v for k, v in defs["structs"].items() if k != "WOpt"}, "shapes": defs["shapes"]}
             sel = [(i, c) for i, c in sel if "WOpt" not in json.dumps(c["sig"])]
@@ -272,7 +277,7 @@ def run(rep, tier):
                                "expected": {"ret": strip(exp["ret"]), "params": [strip(x) for x in exp["params"]]},
                                "parsed": {"ret": got_ret, "params": got_params}})
         # struct mirrors: same fields in the same order with the same primitive types
-        for n, sh in defs["shapes"].items():
+        for n, sh in shapes.items():
             if lang == "kotlin" and n == "WOpt":
                 continue
             m = mirror(n)
